@@ -60,8 +60,14 @@ def case_strategy(draw, tier="quick"):
         # bursts: "!" = the next action follows before the loop runs anything
         marks = draw(st.lists(st.integers(0, 2), min_size=len(acts), max_size=len(acts)))
         acts = [a + ["!"] if m == 0 and a[0] == "emit" else a for a, m in zip(acts, marks)]
+    # optionally detach the timing node from its upstream in mid-run (destroy() only disconnects:
+    # what it holds must still come out with the next tick / timeout) and attach it again later
+    detach = None
+    if draw(st.integers(0, 4)) == 0 and len(acts) >= 2:
+        i = draw(st.integers(0, len(acts) - 1))
+        detach = [i, draw(st.integers(i, len(acts)))]
     return {"spec": {"nodes": nodes, "fb": None}, "cmodes": {str(len(nodes) - 1): mode},
-            "actions": acts}
+            "actions": acts, "detach": detach}
 
 
 def execute(case):
@@ -71,7 +77,17 @@ def execute(case):
     kind, p = nd["k"], nd["p"]
     cmode = list(case["cmodes"].values())[0]
     iv = p["i"] if "i" in p else p["timeout"]
-    run = schedule.execute(case, consumer_modes={S: cmode})
+    step_hook = None
+    if case.get("detach"):
+        i0, j0 = case["detach"]
+
+        def step_hook(k, built):
+            n_ = built.nodes[N]
+            if k == i0:
+                n_.destroy()
+            if k == j0 and not n_.upstreams:
+                built.nodes[N - 1].connect(n_)
+    run = schedule.execute(case, consumer_modes={S: cmode}, step_hook=step_hook)
     ev = run.log.events
     arr = [(i, e[3], e[5]) for i, e in enumerate(ev) if e[0] == "arr" and e[1] == N]
     out = [(i, e[2], e[4]) for i, e in enumerate(ev) if e[0] == "rec" and e[1] == N]
@@ -187,7 +203,8 @@ def execute(case):
     if kind == "partition_t" and any(len(b) == p["n"] for _, b, _ in out) and p["n"] > 1:
         cls.add("size-flush")
     return Result(v, nontrivial=bool(cls), classes=sorted(cls) + ["node:" + kind,
-                                                                   "consumer:" + cmode] + (["index-key"] if p.get("key") == "idx0" else []))
+                                                                   "consumer:" + cmode] + (["index-key"] if p.get("key") == "idx0" else []) +
+                  (["detach-reattach"] if case.get("detach") else []))
 
 
 PARTS = [Part("arrival-patterns", case_strategy, execute, quick=2400, thorough=15000)]
